@@ -65,7 +65,14 @@ def unlock_failure_in_outer_result(ctx, P):
             ctx.functions.discard(p)
             continue
         n += 1
+        # the unlock result is what is returned: directly, or through plain copies of the local it was stored in
+        from rules.common import single_defs, resolve_value
+        defs = single_defs(b)
         direct = [i for i, t in b.calls(r'::unlock$') if t['d']['l'] == 0 and not t['d']['pr']]
+        for i, k, st in b.stmts(lambda st: st['d']['l'] == 0 and not st['d']['pr'] and st['r']['k'] == 'use'):
+            kk, vv = resolve_value(b, st['r']['o'][0], defs)
+            if kk == 'call' and re.search(r'::unlock$', vv['f'].get('fn', '') or ''):
+                direct.append(i)
         wrapped = []
         for i, k, st in b.stmts(lambda st: st['d']['l'] == 0 and not st['d']['pr'] and st['r']['k'] == 'agg' and st['r'].get('v') == 'Ok'):
             og = b.operand_origins(st['r']['o'][0]) if st['r']['o'] else set()
